@@ -82,7 +82,22 @@ def decoder_iterations(du, dfi):
     return out
 
 
+UNKNOWN_RUNS = []
+
+
+def _unknown_constructs():
+    for runs in UNKNOWN_RUNS:
+        for p in runs.inv:
+            for u in p.unknowns:
+                return u[0]
+    return None
+
+
 def simple(ob, ok, good, bad, witness=None, undecided=None):
+    if not undecided and not ok:
+        u = _unknown_constructs()
+        if u:
+            undecided = f'construct outside the interpreted fragment: {u}'
     if undecided:
         ob.verdict, ob.detail = UNDECIDED, undecided
     elif ok:
@@ -116,6 +131,8 @@ def check(prog, res, tier):
         msg.items['MTI'] = it.sym_str('MTI', lo=4, hi=4, charset='digits')
         return it.call_function(efi, [msg, common.generic_bit_config(it), codec(it), SymV('hex_bitmap', 'bool')], {})
     runs_e = Runs(prog, entry_e, summaries={FIELD: field_summary, 'iso8583._pds_to_de': pds_summary}, hooks=common.HOOKS, res=res)
+    del UNKNOWN_RUNS[:]
+    UNKNOWN_RUNS.extend([runs_e, du.loads] + [u.runs for u in du.units.values()])
 
     # ---- C01.a bit range agreement
     def ranges(runs, fname):
@@ -359,6 +376,29 @@ def check(prog, res, tier):
         if isinstance(src, SeqV) and len(src.segs) == 1 and isinstance(src.segs[0], Opq) and isinstance(src.segs[0].desc, tuple) \
                 and src.segs[0].desc[0] == 'reversed':
             return [definite('the binary digits are reversed before they become flags (bit n and bit 129-n are swapped)')]
+        if isinstance(src, IterV) and getattr(src, 'desc', '') == 'reversed' and isinstance(src.src, RangeV) or isinstance(src, RangeV):
+            # shift-and-mask form: [bool(value >> position & 1) for position in reversed(range(width))]
+            rng = src.src if isinstance(src, IterV) else src
+            fails = []
+            if isinstance(src, RangeV):
+                fails.append(definite('bits are taken from the least significant end first (positions ascend): bit n and bit 129-n are swapped'))
+            if not (p.store.decide_eq0(Lin.of(rng.lo)) is True and p.store.decide_eq0(Lin.of(rng.hi) - 128) is True):
+                fails.append(definite(f'bit positions range over {rng!r}, not 0..127'))
+            shifts = [e for e in p.events if e.kind == 'ext-call' and e.data['callee'] == 'bool' and e.under('BitArray.BitArray.tolist')]
+            ok = False
+            for e in shifts:
+                x = e.data['args'][0] if e.data['args'] else None
+                o1 = getattr(x, 'origin', None)
+                if o1 and o1[0] == 'BitAnd':
+                    y = o1[1] if isinstance(o1[2], IntV) and p.store.canon(o1[2].lin) == Lin.const(1) else o1[2]
+                    o2 = getattr(y, 'origin', None)
+                    if o2 and o2[0] == 'RShift' and isinstance(o2[1], IntV) and o2[1].lin.syms():
+                        o3 = it.origin.get(o2[1].lin.syms()[0])
+                        if o3 and o3[0] == 'int' and o3[2] == 16 and reaches(o3[1], bsrc):
+                            ok = True
+            if not ok:
+                fails.append(soft('flags are not (value >> position) & 1 of the big-endian integer value of the bytes'))
+            return fails
         if not (isinstance(src, SeqV) and len(src.segs) == 1 and isinstance(src.segs[0], Num)):
             return [soft(f'bit list is not built from the binary numeral of the bytes: {src!r}')]
         n = src.segs[0]
@@ -405,7 +445,8 @@ def check(prog, res, tier):
             fails.append(soft('packed value is not int(<0/1 text of the list>, 2)'))
         else:
             lv = o[1].segs[0].desc[1]
-            if not (isinstance(lv, ListV) and getattr(lv, 'src', None) is it.user['lst'] and not getattr(lv, 'filtered', False)):
+            if not (isinstance(lv, (ListV, IterV)) and getattr(lv, 'src', None) is it.user['lst'] and not getattr(lv, 'filtered', False)
+                    and getattr(lv, 'desc', '') in ('listcomp', 'genexp')):
                 fails.append(definite('the 0/1 text is not built from the flag list in order'))
         return fails
     res.add(runs_fl.judge('C01.f', 'BitArray.fromlist packs the flags MSB first into big-endian bytes', func_where(bci.lookup('fromlist')[1]),
